@@ -7,6 +7,30 @@ ROOT = os.path.dirname(os.path.dirname(os.path.abspath(__file__)))
 
 # id -> (technique, level text, level note, design ref)
 CHECKS = {
+ "C06": ("proptest differential against an independent reference verifier over near-valid byte strings (both directions: false accepts and false rejects)",
+         "Near-valid byte strings (well-formed by construction, then 0-2 targeted mutations) and random strings are fed to the default verifier through new()/set_program() of all four VM kinds and compared with a reference verifier written from the property statement; every rule is exercised from both sides and the per-rule near-miss histogram is reported. Sampled, not exhaustive: exploration.",
+         "Trusts harness/vrun/src/refver.rs as the statement of well-formedness.",
+         "DESIGN.md section 3, C06"),
+ "C13": ("proptest differential: generated assembly texts vs a table-driven reference assembler with an independent encoder",
+         "Texts over every documented mnemonic, operand shape, register, offset and immediate class and number spelling are assembled and compared byte for byte with what a reference assembler over the abstract syntax says they denote; invalid texts must be rejected. Exploration.",
+         "Trusts harness/vrun/src/asmref.rs (mnemonic table from README/tests) and the reference encoder.",
+         "DESIGN.md section 3, C13"),
+ "C14": ("proptest crash oracle (catch_unwind) over token soup, arbitrary Unicode and mutated valid texts",
+         "Totality is attacked with generators aimed at the parser's numeric conversions (literal lengths 1-80, all sign combinations, values around 2^63/2^64, huge register numbers) plus arbitrary strings and mutations of valid programs; the oracle is that assemble() returns. Exploration.",
+         "A panic must unwind to be observed (harness built with panic=unwind); time bound is a 2 s per-call watchdog reported as inconclusive.",
+         "DESIGN.md section 3, C14"),
+ "C15": ("proptest validity predicate: disassembler output vs independent decoder, mnemonic table and a parser of the assembler syntax",
+         "Instruction streams over every opcode, all register nibbles, extreme offsets and immediates are disassembled; each entry's fields, merged immediate, name and parsed text are compared with the reference decoding (thorough: every opcode x all 65536 offsets enumerated). Exploration.",
+         "Trusts the reference decoder and mnemonic table in isa.rs and the desc parser in asmref.rs; cosmetic text differences are tolerated by design.",
+         "DESIGN.md section 3, C15"),
+ "C16": ("proptest round trip disassemble -> assemble, with a canonical-form oracle for non-expressible programs",
+         "Expressible canonical programs must round-trip exactly; for any other program an accepted text must assemble to the canonical form. Exploration.",
+         "Canonical form is defined by the used-field table in isa.rs.",
+         "DESIGN.md section 3, C16"),
+ "C19": ("proptest against closed-form oracles (formula, exact integer square root, XOR involution with canaries, captured stdout byte count, range predicate)",
+         "Each built-in helper is called on boundary-heavy argument tuples and compared with an independent statement of its documented function; pointer helpers run on canary-surrounded buffers; bpf_trace_printf's output is captured through a pipe on fd 1. Exploration.",
+         "Pointer preconditions are respected by construction; println! is assumed to write to fd 1.",
+         "DESIGN.md section 3, C19"),
  "C17": ("exhaustive per-field enumeration + proptest round trip / differential against an independent encoder, Insn encoder, builder and assembler",
          "Exhaustive enumeration of each field (256x256 opcode/register bytes, all 65536 offsets, boundary immediates in quick and all 2^32 immediates in thorough) plus generated full slots at random program indices and generated builder-call chains, each compared with an independent reference encoder/decoder and cross-checked between Insn::to_array/to_vec, insn_builder and assemble(). Exhaustive per field, sampled for field combinations: exploration level.",
          "Trusts the 20-line reference encoder in harness/vrun/src/isa.rs; builder constructors that denote no instruction are excluded.",
